@@ -241,3 +241,40 @@ class UniversalImplTable:
       "assert [C12] (g_last == 0 - 1 and forall(t, 0, j, blocks[t] != blocks[j])) or (0 <= g_last and g_last < j and "
       "blocks[g_last] == blocks[j] and forall(t, g_last + 1, j, blocks[t] != blocks[j]))"]}
   props = ["C12"]
+
+
+# C12, NIST 2.4.4 (longest run of ones in a block): the integer part.  The class of a block with longest run x is
+# 0 for x <= v_lower, K for x >= v_upper and x - v_lower in between; the chi-square has K degrees of freedom and one
+# probability per class.  LongestRunOfOnes itself (bit-parallel) is assumed here and decided by the bounded tier (C15).
+@contract(f"{U}::LongestRunOfOnes")
+class LongestRunOfOnes:
+  params = {"seq": "int"}
+  returns = "int"
+  assumed = True
+  assumed_why = "bit-parallel run detection: decided by the bounded tier (C15 runs_and_run_lengths); here an uninterpreted function of the block"
+  returns_expr = "ufi('longest_run_of_ones', seq)"
+  ensures = ["result == ufi('longest_run_of_ones', seq)"]
+
+
+impl(f"{N}::ChiSquare", {"count": "list[int]", "prob": "opaque", "k": "Optional[int]"})
+
+
+@contract(f"{N}::LongestRuns#classes")
+class LongestRunsClasses:
+  params = {"bits": "int", "n": "int"}
+  returns = "opaque"
+  requires = ["bits >= 0", "n >= 128"]
+  loops = {1: dict(invariant=["len(v) == v_upper - v_lower + 1", "v_lower >= 1", "v_upper > v_lower"],
+                   body_end=[("C12", "implies(x <= v_lower, idx == 0)"),
+                             ("C12", "implies(x >= v_upper, idx == v_upper - v_lower)"),
+                             ("C12", "implies(v_lower < x and x < v_upper, idx == x - v_lower)")])}
+  on_call = {f"{N}::ChiSquare": [
+      "assert [C12] args[0] is v",
+      "assert [C12] args[2] is not None and args[2] == v_upper - v_lower",      # K degrees of freedom, K + 1 classes
+      "assert [C12] v_lower == (1 if n < 6272 else (4 if n < 750000 else 10))",
+      "assert [C12] v_upper == (4 if n < 6272 else (9 if n < 750000 else 16))"]}
+  # total: the class index is inside the count vector (otherwise the IndexError of v[idx] would be a path assumption
+  # that hides a wrong index for long runs)
+  total = True
+  total_props = ["C12"]
+  props = ["C12"]
